@@ -158,7 +158,8 @@ L['C05'] = dict(modules=['Schc.Properties.C05'], level='proof', technique='Lean 
               T('C05_getitem_slice', 'full', 'optional / negative / over-long bounds resolved as slice.indices'),
               T('C05_slice_clamp', 'full', 'a stop beyond the length is clamped'),
               T('C05_getitem_bit', 'full', 'b[i]'),
-              T('C05_add', 'full', 'a + b for all operand pairs, all four side combinations, every alignment; operands unchanged'),
+              T('C05_add', 'full', 'a + b for all operand pairs, all four side combinations, every alignment'),
+              T('C05_add_operands', 'full', '… and both operands of + are left unchanged'),
               T('C05_pad', 'full', 'pad(side, inplace) both modes'),
               T('C05_setitem', 'full', 'b[s:e] = v'),
               T('C05_add_then_slice', 'full', 'composition: slicing a concatenation at the seam')],
